@@ -120,6 +120,17 @@ impl Check for C04 {
                 fixed.push(vec![a]);
                 fixed.push(vec![o]);
                 fixed.push(vec![V::Null, mixed]);
+                // other leaves under the same nesting: arrays of numbers, strings, empty containers
+                for leaf in [V::Arr(vec![V::Num(1.5f64.to_bits())]), V::Arr(vec![V::Num(0), V::Num(1)]), V::Str("leaf".into()), V::Arr(vec![]), V::Obj(vec![]), V::Num(7)] {
+                    let mut x = leaf.clone();
+                    let mut y = leaf;
+                    for i in 0..n {
+                        x = V::Arr(vec![x]);
+                        y = if i % 2 == 0 { V::Obj(vec![("k".to_string(), y)]) } else { V::Arr(vec![y]) };
+                    }
+                    fixed.push(vec![x]);
+                    fixed.push(vec![y]);
+                }
             }
             out.count("deep_nesting_cases", 14 * 3);
             for vs in fixed.iter() {
